@@ -2,6 +2,21 @@
 from vlib import modules
 
 
+def _floors(ctx, sub, floors):
+    """Lower bounds on the number of judged cases per stream: a change that silently drops cases (a build that
+    stops working, a generator that loses a class) must not leave the run green."""
+    st = ctx.coverage.get("input_distribution", {}).get(sub)
+    if st is None:
+        return
+    for key, lo in floors.items():
+        ctx.obligations += 1
+        got = st.get(key, 0)
+        if got >= lo:
+            ctx.discharged += 1
+        else:
+            ctx.obligation_failures.append((f"{sub}: sample floor {key}", f"{key} = {got}, at least {lo} required"))
+
+
 def run(ctx):
     if not ctx.build_harness(["c13.go", "gen_consts.go"]):
         return
@@ -10,43 +25,100 @@ def run(ctx):
     # the driver (model + acceptors) must build even when a table theorem breaks
     if not ctx.build_driver():
         return
-    if ctx.lake_each(["AvoVerif.Props.C13", "AvoVerif.Props.C13Tables"]):
+    targets = ["AvoVerif.Props.C13", "AvoVerif.Props.C13Accept", "AvoVerif.Props.C13Tables"]
+    if ctx.lake_each(targets):
         ctx.audit("C13")
     if ctx.tier == "thorough":
-        ctx.leanchecker(["AvoVerif.Props.C13", "AvoVerif.Props.C13Tables"])
+        ctx.leanchecker(targets)
     nontrivial = lambda req, resp: not (req.startswith("data ") and req.endswith(" 0"))
     if hasattr(ctx, "run_corpus"):
         ctx.run_corpus("c13", nontrivial=nontrivial)
     quick = ctx.tier == "quick"
     if quick:
-        n, extra = 3000, ["-measure", "400", "-nonmono", "4", "-f32", str(1 << 24), "-f32budget", "60"]
+        n, extra = 3000, ["-measure", "400", "-nonmono", "24", "-f32", str(1 << 24), "-f32budget", "60"]
+        floors = {"sections": 3000, "exact_data_lines": 2500, "sections_100_or_more_data": 15, "sections_10_to_99_data": 30,
+                  "placement_below_previous_end_requested": 500, "negative_offset_requested": 20, "measured_sections_read_back": 380,
+                  "measured_sections_100_or_more_data": 1, "f32_sweep_checked": 1 << 22, "f32_requests": 1000,
+                  "f64_requests": 1000, "int_requests": 500, "str_requests": 500, "f11_witnesses_assembled": 2,
+                  "via_2": 300, "via_3": 30, "via_4": 150, "with_other_sections_in_file": 200}
     else:
-        n, extra = 60000, ["-measure", "6000", "-nonmono", "12", "-f32", str(1 << 32), "-f32budget", "600"]
-    ctx.differential("c13", n, extra=extra + ["-dir", "meas"], nontrivial=nontrivial, timeout=3000)
+        n, extra = 60000, ["-measure", "6000", "-nonmono", "200", "-f32", str(1 << 32), "-f32budget", "450"]
+        floors = {"sections": 60000, "exact_data_lines": 50000, "sections_100_or_more_data": 300, "sections_10_to_99_data": 600,
+                  "placement_below_previous_end_requested": 10000, "negative_offset_requested": 400, "measured_sections_read_back": 5700,
+                  "measured_sections_100_or_more_data": 20, "f32_sweep_checked": 1 << 26, "f11_witnesses_assembled": 2,
+                  "via_2": 6000, "via_3": 600, "via_4": 3000, "with_other_sections_in_file": 4000}
+    if ctx.differential("c13", n, extra=extra + ["-dir", "meas"], nontrivial=nontrivial, timeout=3000) is not None and not ctx.replay:
+        _floors(ctx, "c13", floors)
     ctx.level = "proof"
+    ctx.coverage["proof_partial"] = (
+        "floats are MEASURED, not proved: the theorems take ConstOK / ConstOKReal (the assembler turns the printed decimal back "
+        "into the constant's bit pattern) as a hypothesis; it is checked per value (Lean's exact-rational model of cmd/asm's "
+        "conversion on every generated float, the kernel on the boundary vectors of Gen/Consts, strconv on a float32 sweep, the "
+        "real assembler+linker on a sample). The assembler itself (`assemble`) is a hand-written Lean model, tied to cmd/asm by "
+        "measurement only.")
     ctx.coverage["rule"] = (
-        "random call sequences through build.Context.StaticGlobal/DataAttributes/AddDatum/AppendDatum/ConstData and "
-        "ir.Global.Grow (adjacent, aligned, overlapping by one or more bytes, out-of-order, inside gaps, zero-length "
-        "strings at boundaries and inside data, appends after gaps and grows, a few negative offsets = out of scope), all 11 "
-        "constant kinds with boundary and random values: exact comparison of accept/reject flags, data list, size and the "
-        "printed DATA/GLOBL lines with the Lean model; acceptors on the implementation's own output (accept-data: the "
-        "property replayed with the implementation's decisions; accept-lines: Lean's model of the assembler applied to the "
-        "printed lines gives the image; accept-int / accept-str: the assembler's reading of the constant's text stores its "
-        "bytes). MEASURED: sections are built with `go build` together with accessor functions, the bytes of every symbol "
-        "read from the running binary and compared with the model image (accept-asm); float texts converted as cmd/asm "
-        "does (ParseFloat 64 then float32): float64 boundary+random, float32 stratified sweep (quick 2^24 values, thorough up "
-        "to all 2^32 within 10 min, through the real operand.F32.String) plus the F11 witnesses through the real assembler and "
-        "linker; every float text is also converted by Lean's own exact-rational model of the assembler (fparse lines compare it "
-        "with strconv, accept-f32/f64 judge with it)")
+        "random call sequences through FIVE entry points — build.Context.StaticGlobal/DataAttributes/AddDatum/AppendDatum, "
+        "Context.ConstData, the package-level wrappers build.GLOBL/build.DATA and build.ConstData (on a swapped-in context), "
+        "and ir.NewStaticGlobal/Global.AddDatum/Append/Grow directly — with, for a fifth of the cases, other sections before and "
+        "after it in the same file that are written to while it is not active. Shapes: adjacent, aligned, overlapping by one or "
+        "more bytes, out-of-order, inside gaps, zero-length strings at boundaries and inside data, appends after gaps and grows, "
+        "negative offsets; in every tier also TABLES of 10-60 and 100-400 data (in order, shuffled, reversed) followed by probes "
+        "aimed at entries chosen uniformly over the whole table (first/last byte, same offset, exact gap fit, containment, "
+        "zero-length at boundaries), so that an overlap structure that is only right for few or for recent entries is exercised. "
+        "All 11 constant kinds with boundary and random values. Exact comparison with the Lean model: accept/reject flags, data "
+        "list, size (sequences without negative offsets), and the text of the DATA/GLOBL block where the order of the lines is "
+        "not at issue (sections whose data are in increasing order). Acceptors on the implementation's own output: accept-data "
+        "(the property replayed with the implementation's decisions: no accepted placement shares a byte with an earlier one or "
+        "is negative, every rejection is justified by Go's interval test, appends land at the furthest extent, final data = the "
+        "accepted constants, pairwise disjoint, inside [0,size), size = furthest extent; `acceptData_sound`), accept-attrs (the "
+        "attributes stored and the value of the GLOBL line's attribute text per the toolchain's textflag.h equal the requested "
+        "value; ConstData: RODATA|NOPTR), accept-lines for EVERY section (Lean's model of cmd/asm applied to all printed lines "
+        "of the file that are not comments/#include gives the image; out-of-order sections must give it once sorted by offset), "
+        "accept-int / accept-str (the assembler's reading of the constant's text stores its bytes). MEASURED: sections are built "
+        "with `go build` together with accessor functions under 4 linkable attribute sets, the bytes of every symbol read from "
+        "the running binary and compared with the model image (accept-asm); a failing batch is narrowed to the guilty sections "
+        "(each assembled alone, rest rebuilt, bisection); out-of-order and negative sections are assembled alone with `go tool "
+        "asm` (their rejection class is part of the request; those the assembler accepts are read back like the others); float "
+        "texts converted as cmd/asm does (float token -> ParseFloat 64 then float32; NO decimal point -> integer): float64 "
+        "boundary+random, float32 stratified sweep (quick 2^24 values, thorough as many of the 2^32 as fit in 450 s, through the real "
+        "operand.F32.String) plus the F11 witnesses through the real assembler and linker; every float text is also converted by "
+        "Lean's own exact-rational model of the assembler (fparse lines compare it with strconv, accept-f32/f64 judge with it). "
+        "Gen/Consts is BEHAVIOURAL: the constant types by go/types, Asm()/Bytes() of the compiled package on boundary vectors, "
+        "checked against the model by the kernel (no source text compared). Lower bounds on the number of judged cases per "
+        "stream are proof obligations of the run.")
     ctx.assumptions += [
-        "Go int arithmetic does not overflow; placements at negative offsets are outside the property's quantifier",
+        "Go int arithmetic does not overflow: offsets near MaxInt64 make Offset+Bytes() wrap in ir.Datum.Interval (two equal "
+        "data at MaxInt64-1 are both accepted, size not grown); the model uses unbounded Int and such offsets are not generated "
+        "(cmd/asm refuses every offset >= 2^30 anyway: same class as finding C13-NEGOFF)",
+        "placements at negative offsets: avo accepts them, no byte of the symbol is there and the assembler refuses the file "
+        "(finding C13-NEGOFF); they are excluded from the exact model comparison (so rejecting them in avo does not alarm) and "
+        "from the hypotheses of data_disjoint / data_end_to_end (InScope)",
+        "out-of-order sections (finding F14) get no measured bytes (the build fails); Lean's assembler model must give the image "
+        "from their lines sorted by offset. A repair that SORTS the printed lines keeps the check silent; a repair that REJECTS "
+        "out-of-order placements in AddDatum would need the model's `addDatum` updated (reported as a broken correspondence)",
         "floats: the theorems take `ConstOK` (the assembler converts the printed decimal to the constant's bit pattern) "
-        "as a hypothesis; it is measured per value, not proved for all values (no verified shortest-decimal printing in Lean)",
-        "strings: proved for literals the assembler's lexer leaves alone (LexerSafe); U+00B7 / U+2215 are finding F15",
-        "strconv.IsPrint (which runes >= 0x80 %q prints raw) is supplied by the harness per request; the round trip "
-        "theorem holds for every such table",
-        "cmd/asm's DATA semantics (monotone offsets, WriteInt truncation, WriteString padding, Unquote) are modelled in "
-        "Model/Data.lean `assemble` and measured against the real toolchain on every run",
+        "as a hypothesis; it is measured per value, not proved for all values (no verified shortest-decimal printing in Lean). "
+        "Only finite values are in the property's quantifier: NaN/Inf print `NaN.0`/`+Inf.0`, which the assembler rejects; not generated",
+        "strings: proved for every byte string with `$%+q` (string_text_roundtrip); the former `$%q` (runes printed raw) is "
+        "kept only as the regression witness of F15",
+        "cmd/asm's DATA semantics (monotone offsets, no negative offsets, WriteInt truncation, WriteString padding, Unquote, the "
+        "lexer's rewriting of U+00B7/U+2215, `$(text)` = float only with a decimal point else integer) are modelled in "
+        "Model/Data.lean `assemble` / Model/Float.lean `asmFloat` and measured against the real toolchain on every run; "
+        "`parseMag` reads a leading 0 as decimal (cmd/asm: octal) — unreachable from `%+d` / `%#0Nx` output",
+        "several symbols in one file are independent: not a theorem; exercised by the decoy sections and by the measured "
+        "program (hundreds of symbols in one file)",
+        "attributes: only the numeric value is judged (stored value, and the GLOBL text evaluated with textflag.h); that the "
+        "linker honours RODATA/NOPTR/DUPOK is not measured; the measured program uses 4 linkable sets (asm data without NOPTR "
+        "does not link)",
+        "the text of the DATA/GLOBL block (in-order sections), of integer constants (`int` lines, Gen/Consts vectors) and of "
+        "string constants (`str` lines) is compared exactly with the model (`$%+d`, `$%#0Nx`, `$%+q`): a change to another text "
+        "form the assembler reads the same way, e.g. `$1` for `$0x01`, would be reported as a broken correspondence / table "
+        "theorem although accept-int / accept-str / accept-lines would still pass (the operand text form is property C05's)",
     ]
     ctx.trusted += ["the Go toolchain (go build, cmd/asm, cmd/link) and the host CPU for the measured image",
-                    "strconv.ParseFloat / FormatFloat / IsPrint of the installed Go as ground truth for floats and %q printability"]
+                    "strconv.ParseFloat / ParseUint of the installed Go as ground truth for the assembler's number parsing",
+                    "the toolchain's textflag.h for the value of attribute names",
+                    "go/types (golang.org/x/tools/go/packages) for the list of constant types",
+                    "acceptors' diagnosis strings (`dataProblems`, `linesVerdict`) and the parsing of the printed block "
+                    "(`parseBlock`) are glue; the accept decisions themselves are `acceptData`/`acceptLines`/`acceptBytes` "
+                    "(soundness: Props/C13Accept.lean)"]
